@@ -84,6 +84,16 @@ class NTup(Tup):
         return self.items[self.fields.index(name)] if name in self.fields else None
 
 
+class GenExpV(Tup):
+    """the items of a generator expression (evaluated eagerly: the expressions analysed are pure), with how many were consumed by
+    next() / a loop -- an iterator, unlike a list"""
+    __slots__ = ('pos',)
+
+    def __init__(self, items):
+        Tup.__init__(self, items, 'tuple')
+        self.pos = 0
+
+
 class NTClass(Value):
     """what collections.namedtuple(...) returns (ci: the class statement deriving from it, if any)"""
 
@@ -131,6 +141,14 @@ class CountV(Value):
 
     def __init__(self, start, step):
         self.start, self.step, self.pos = start, step, 0
+
+
+class LazySeqV(Value):
+    """enumerate(...) / zip(...) over at least one iterator that may be unbounded (a generator, itertools.count): items are produced on
+    demand by the loop that walks it"""
+
+    def __init__(self, kind, srcs, start=0):
+        self.kind, self.srcs, self.start, self.pos = kind, list(srcs), start, 0
 
 
 class MethodCallerV(Value):
@@ -752,6 +770,10 @@ class Interp:
         if dotted == 'itertools.islice' and 2 <= len(args) <= 4 and not kwargs and all(isinstance(a, Const) and (a.v is None or isinstance(a.v, int)) for a in args[1:]):
             lo, hi, st_ = (0, args[1].v, 1) if len(args) == 2 else (args[1].v or 0, args[2].v, (args[3].v if len(args) > 3 else None) or 1)
             src = args[0]
+            if hi is None and isinstance(src, (GenV, CountV, LazySeqV)):
+                lz = LazySeqV('slice', [src], lo)           # everything from item lo on, in steps: produced on demand
+                lz.step = st_
+                return lz
             if hi is None and not isinstance(src, (Tup, IterV)):
                 return Unknown('islice without an end of something unbounded')
             if isinstance(src, GenV):
@@ -826,12 +848,19 @@ class Interp:
         if not dotted.startswith('numpy.') or not args:
             return None
         last = dotted.rsplit('.', 1)[-1]
-        if last not in ('abs', 'absolute', 'unique', 'arange', 'sort', 'max', 'min', 'amax', 'amin'):
+        if last not in ('abs', 'absolute', 'unique', 'arange', 'sort', 'max', 'min', 'amax', 'amin', 'ndindex'):
             return None
 
         def seq(v):
             if isinstance(v, Tup) and v.items and all(isinstance(x, Const) and isinstance(x.v, int) and not isinstance(x.v, bool) for x in v.items):
                 return [x.v for x in v.items]
+            return None
+        if last == 'ndindex' and not kwargs:
+            dims = [a.v for a in (args[0].items if len(args) == 1 and isinstance(args[0], Tup) else args) if isinstance(a, Const) and isinstance(a.v, int) and not isinstance(a.v, bool)]
+            n_given = len(args[0].items) if len(args) == 1 and isinstance(args[0], Tup) else len(args)
+            if len(dims) == n_given and all(0 <= d <= 16 for d in dims):
+                import itertools
+                return GenExpV([Tup([Const(i) for i in idx]) for idx in itertools.product(*[range(d) for d in dims])])
             return None
         if last == 'arange':
             if all(isinstance(a, Const) and isinstance(a.v, int) and not isinstance(a.v, bool) for a in args) and set(kwargs) <= {'dtype'} \
@@ -1034,7 +1063,16 @@ class Interp:
                 return args[0]
             its = self.iterate(args[0], node)
             return IterV(its) if its is not None else Unknown('iter of something that is not followed')
-        if name == 'next' and args and isinstance(args[0], (IterV, CountV)) and len(args) <= 2 and not kwargs:
+        if name == 'next' and args and isinstance(args[0], LazySeqV) and len(args) <= 2 and not kwargs:
+            try:
+                nxt = self._lazy_item(args[0], 0, node)
+            except _GenAbort:
+                return Unknown('next() of an iterator that is not followed')
+            if nxt is None:
+                return args[1] if len(args) == 2 else Unknown('next() of an exhausted iterator')
+            self._lazy_advance(args[0], 1)
+            return nxt[0]
+        if name == 'next' and args and isinstance(args[0], (IterV, CountV, GenExpV)) and len(args) <= 2 and not kwargs:
             g = args[0]
             if isinstance(g, CountV):
                 g.pos += 1
@@ -1057,6 +1095,21 @@ class Interp:
             if len(args) == 2:
                 return args[1]
             return Unknown('next() of an exhausted generator')
+        def _endless(a):
+            if isinstance(a, (CountV, LazySeqV)):
+                return True
+            if isinstance(a, GenV):
+                if self._gen_stack:
+                    return True
+                probe, fin_ = a.take(a.pos + self.GEN_FUEL)
+                return probe is not None and not fin_
+            return False
+        if name == 'enumerate' and args and _endless(args[0]):
+            st_ = args[1] if len(args) > 1 else kwargs.get('start', Const(0))
+            if isinstance(st_, Const) and isinstance(st_.v, int):
+                return LazySeqV('enumerate', [args[0]], st_.v)
+        if name == 'zip' and args and all(_endless(a) for a in args):
+            return LazySeqV('zip', list(args))
         if name in ('zip', 'enumerate') and any(isinstance(a, CountV) for a in args):
             if name == 'zip':
                 others = [self.iterate(a, node) if not isinstance(a, (CountV, GenV)) else None for a in args]
@@ -1277,6 +1330,10 @@ class Interp:
         return Unknown('isinstance')
 
     def iterate(self, v, node):
+        if isinstance(v, GenExpV):
+            out = v.items[v.pos:]
+            v.pos = len(v.items)
+            return out
         if isinstance(v, IterV):
             out = v.items[v.pos:]
             v.pos = len(v.items)
@@ -1427,8 +1484,78 @@ class Interp:
             return True
         return exc in names
 
+    def _lazy_item(self, v, k, node):
+        """the k-th not yet consumed item of an iterator that is walked on demand: (item,) or None when it is exhausted; _GenAbort
+        when it cannot be followed"""
+        if isinstance(v, CountV):
+            return (Const(v.start + v.step * (v.pos + k)),)
+        if isinstance(v, GenV):
+            items, fin = v.take(v.pos + k + 1)
+            if items is None:
+                raise _GenAbort()
+            return (items[v.pos + k],) if len(items) > v.pos + k else None
+        if isinstance(v, (IterV, GenExpV)):
+            return (v.items[v.pos + k],) if v.pos + k < len(v.items) else None
+        if isinstance(v, LazySeqV):
+            if v.kind == 'slice':
+                return self._lazy_item(v.srcs[0], v.start + (v.pos + k) * getattr(v, 'step', 1), node)
+            parts = [self._lazy_item(x, v.pos + k, node) for x in v.srcs]
+            if any(p_ is None for p_ in parts):
+                return None
+            vals = [p_[0] for p_ in parts]
+            return (Tup([Const(v.start + v.pos + k), vals[0]]),) if v.kind == 'enumerate' else (Tup(vals),)
+        its = self.iterate(v, node) if not isinstance(v, (CountV, GenV, LazySeqV)) else None
+        if its is None:
+            raise _GenAbort()
+        if isinstance(v, Tup):
+            return (its[k],) if k < len(its) else None
+        raise _GenAbort()
+
+    def _lazy_advance(self, v, n):
+        if isinstance(v, LazySeqV) and v.kind == 'slice':
+            v.pos += n
+        elif isinstance(v, LazySeqV):
+            for x in v.srcs:
+                self._lazy_advance(x, n)
+            v.pos += n
+        elif isinstance(v, (CountV, GenV, IterV, GenExpV)):
+            v.pos += n
+
     def st_For(self, st, frame):
         itv = self.ev(st.iter, frame)
+        unbounded_gen = False
+        if isinstance(itv, GenV) and not self._gen_stack:
+            probe, fin_ = itv.take(itv.pos + self.GEN_FUEL)
+            unbounded_gen = probe is not None and not fin_
+        if isinstance(itv, (CountV, LazySeqV)) or (isinstance(itv, GenV) and (self._gen_stack or unbounded_gen)):
+            # an iterator that may never end: walked item by item; the walk ends when it is exhausted, at a break / return, or when the
+            # generator this loop sits in has yielded as much as was asked of it
+            k, broke = 0, False
+            try:
+                while k < 4 * self.GEN_FUEL:
+                    nxt = self._lazy_item(itv, k, st)
+                    if nxt is None:
+                        break
+                    k += 1
+                    self.assign(st.target, nxt[0], frame, st)
+                    try:
+                        self.exec_block(st.body, frame)
+                    except _Break:
+                        broke = True
+                        break
+                    except _Continue:
+                        continue
+                else:
+                    raise AnalysisError('a loop over an unbounded iterator did not end within %d passes (line %d)' % (4 * self.GEN_FUEL, getattr(st, 'lineno', 0)))
+            except _GenAbort:
+                if not self._gen_stack:
+                    raise AnalysisError('a loop over an iterator that is not followed (line %d)' % getattr(st, 'lineno', 0))
+                raise
+            finally:
+                self._lazy_advance(itv, k)
+            if not broke:
+                self.exec_block(st.orelse, frame)
+            return
         items = self.iterate(itv, st)
         if items is None:
             if self.dom.loop(st, frame):
@@ -2143,7 +2270,7 @@ class Interp:
 
     def ev_GeneratorExp(self, node, frame):
         r = self._comp(node, frame, lambda fr: self.ev(node.elt, fr))
-        return Tup(r, 'tuple') if isinstance(r, list) else r
+        return GenExpV(r) if isinstance(r, list) else r
 
     def ev_SetComp(self, node, frame):
         r = self._comp(node, frame, lambda fr: self.ev(node.elt, fr))
